@@ -52,11 +52,12 @@ const enumMaxPolls = 3000
 const newFile = "n9.csv" // the file a failing CREATE TABLE would create
 
 type tblT struct {
-	Name string `json:"name"` // t1 | t2
-	Kind string `json:"kind"` // file | temp | created
-	N    int    `json:"n"`    // initial number of rows; the ids are 1..N
-	Rot  int    `json:"rot"`  // row i carries the id ((i+Rot) mod N)+1 ...
-	Desc bool   `json:"desc"` // ... or N-((i+Rot) mod N)
+	Name string `json:"name"`          // t1 | t2
+	Kind string `json:"kind"`          // file | temp | created
+	N    int    `json:"n"`             // initial number of rows; the ids are 1..N
+	Rot  int    `json:"rot"`           // row i carries the id ((i+Rot) mod N)+1 ...
+	Desc bool   `json:"desc"`          // ... or N-((i+Rot) mod N)
+	Fmt  string `json:"fmt,omitempty"` // file tables: "" (t.csv) | tsv | json | jsonl | ltsv
 }
 
 type stmtT struct {
@@ -85,14 +86,15 @@ type failT struct {
 }
 
 type caseT struct {
-	Poison bool    `json:"poison,omitempty"` // run with value.VerifPoison: an object handed to value.Discard is overwritten at once
-	Tables []tblT  `json:"tables"`
-	CPU    int     `json:"cpu"`
-	Cold   bool    `json:"cold"` // file tables no statement has touched are not read before the failing statement
-	Prefix []stmtT `json:"prefix"`
-	F      failT   `json:"f"`
-	Ending string  `json:"ending"`         // commit | follow_commit | rollback
-	Enum   bool    `json:"enum,omitempty"` // run the statement once per failure point (every row K / every poll count N) instead of once
+	Poison    bool    `json:"poison,omitempty"` // run with value.VerifPoison: an object handed to value.Discard is overwritten at once
+	Tables    []tblT  `json:"tables"`
+	CPU       int     `json:"cpu"`
+	Cold      bool    `json:"cold"` // file tables no statement has touched are not read before the failing statement
+	Prefix    []stmtT `json:"prefix"`
+	F         failT   `json:"f"`
+	Ending    string  `json:"ending"`               // commit | follow_commit | rollback
+	FollowSet *stmtT  `json:"follow_set,omitempty"` // a valid ALTER TABLE ... SET executed right before the COMMIT of the ending
+	Enum      bool    `json:"enum,omitempty"`       // run the statement once per failure point (every row K / every poll count N) instead of once
 }
 
 func idAt(t tblT, i int) int {
@@ -108,11 +110,14 @@ func idAt(t tblT, i int) int {
 
 type gTbl struct {
 	tblT
-	ids   []int    // live ids in row order (the generator's idea; only used to aim)
-	cols  []string // columns in order
-	extra []string // added columns
-	next  int      // next unused id
+	ids    []int    // live ids in row order (the generator's idea; only used to aim)
+	cols   []string // columns in order
+	extra  []string // added columns
+	next   int      // next unused id
+	format string   // file-backed tables: the format COMMIT will write (CSV TSV JSON JSONL LTSV FIXED GFM ...)
 }
+
+func (g *gTbl) fileBacked() bool { return g.Kind != "temp" }
 
 func (g *gTbl) pos(id int) int {
 	for i, x := range g.ids {
@@ -151,6 +156,13 @@ func genTable(t *rapid.T, name string, weights []int) *gTbl {
 	}
 	g.cols = []string{"id", "v", "w"}
 	g.next = g.N + 1
+	g.format = "CSV"
+	if g.Kind == "file" {
+		g.Fmt = fw.PickU(t, name+"_fmt", []string{"", "", "", "tsv", "json", "json", "jsonl", "ltsv"})
+		if g.Fmt != "" {
+			g.format = strings.ToUpper(g.Fmt)
+		}
+	}
 	return g
 }
 
@@ -181,7 +193,10 @@ func (g *gTbl) rowVals(id int, tag string) []string {
 
 func genPrefix(t *rapid.T, step int, g *gTbl) stmtT {
 	st := stmtT{Refs: []string{g.Name}}
-	kind := []string{"insert", "update", "delete", "replace", "add", "drop"}[fw.Weighted(t, "prefix_kind", []int{25, 25, 15, 10, 15, 10})]
+	kind := []string{"insert", "update", "delete", "replace", "add", "drop", "set_attr"}[fw.Weighted(t, "prefix_kind", []int{25, 25, 15, 10, 15, 10, 14})]
+	if kind == "set_attr" && !g.fileBacked() {
+		kind = "update"
+	}
 	if kind == "drop" && len(g.extra) == 0 {
 		kind = "add"
 	}
@@ -190,6 +205,8 @@ func genPrefix(t *rapid.T, step int, g *gTbl) stmtT {
 	}
 	st.Kind = kind
 	switch kind {
+	case "set_attr":
+		st.SQL = genValidSet(t, g)
 	case "insert":
 		n := fw.Range(t, "ins_rows", 1, 3)
 		if fw.Pct(t, "ins_partial", 35) {
@@ -258,6 +275,55 @@ func genPrefix(t *rapid.T, step int, g *gTbl) stmtT {
 	return st
 }
 
+// genValidSet renders an ALTER TABLE ... SET that csvq accepts (setting the value an attribute
+// already has is accepted with a notice) and tracks the format the table will be written in.
+func genValidSet(t *rapid.T, g *gTbl) string {
+	attr, val := "", ""
+	isJSON := g.format == "JSON" || g.format == "JSONL"
+	switch fw.Weighted(t, "set_attr", []int{34, 14, 10, 8, 8, 6, 6, 8, 6}) {
+	case 0:
+		attr = "FORMAT"
+		val = fw.PickU(t, "set_format", []string{"CSV", "TSV", "JSON", "JSON", "JSONL", "JSONL", "LTSV", "GFM", "ORG", "BOX", "TEXT", "JSONH", "FIXED"})
+		g.format = val
+		if val == "JSONH" {
+			g.format = "JSON"
+		}
+	case 1:
+		if isJSON {
+			attr, val = "ENCODING", "UTF8"
+		} else {
+			attr, val = "ENCODING", fw.PickU(t, "set_encoding", []string{"UTF8M", "UTF16", "UTF16LE", "UTF16BEM", "SJIS", "UTF8"})
+		}
+	case 2:
+		attr, val = "LINE_BREAK", fw.PickU(t, "set_line_break", []string{"CRLF", "CR", "LF"})
+	case 3:
+		attr, val = "HEADER", fw.PickU(t, "set_bool", []string{"FALSE", "TRUE"})
+	case 4:
+		attr, val = "ENCLOSE_ALL", fw.PickU(t, "set_bool", []string{"TRUE", "FALSE"})
+	case 5:
+		attr, val = "PRETTY_PRINT", fw.PickU(t, "set_bool", []string{"TRUE", "FALSE"})
+	case 6:
+		attr, val = "JSON_ESCAPE", fw.PickU(t, "set_escape", []string{"HEX", "HEXALL", "BACKSLASH"})
+	case 7:
+		attr, val = "DELIMITER", fw.PickU(t, "set_delimiter", []string{";", "|", ",", "\\t"})
+		g.format = "CSV"
+		if val == "\\t" {
+			g.format = "TSV"
+		}
+	default:
+		attr, val = "DELIMITER_POSITIONS", "SPACES"
+		g.format = "FIXED"
+	}
+	lit := "'" + val + "'"
+	switch {
+	case attr == "HEADER" || attr == "ENCLOSE_ALL" || attr == "PRETTY_PRINT":
+		lit = val
+	case attr != "DELIMITER" && fw.Pct(t, "set_as_identifier", 40):
+		lit = val // FORMAT TO JSON
+	}
+	return fmt.Sprintf("ALTER TABLE %s SET %s TO %s;", g.Name, attr, lit)
+}
+
 func insertAfter(cols []string, after, col string) []string {
 	var out []string
 	for _, c := range cols {
@@ -287,7 +353,7 @@ func pickRow(t *rapid.T, ids []int) int {
 	return ids[fw.Range(t, "pos_mid", 1, n-2)]
 }
 
-func fileOf(g *gTbl) string { return g.Name + ".csv" }
+func fileOf(g *gTbl) string { return fileName(g.tblT) }
 
 // source renders a table as a FROM item of a sub-select.
 func source(t *rapid.T, g *gTbl, aliased bool) string {
@@ -301,17 +367,21 @@ func source(t *rapid.T, g *gTbl, aliased bool) string {
 }
 
 const (
-	errDiv0          = 30000
-	errRowLength     = 12101
-	errSelectLength  = 12102
-	errFieldNotExist = 10102
-	errDuplicate     = 10104
-	errAmbiguous     = 12202
-	errKeyNotSet     = 13901
-	errTableLength   = 11401
-	errFileExists    = 90182
-	errNotLoaded     = 11602
-	errInlineTable   = 11604
+	errDiv0           = 30000
+	errRowLength      = 12101
+	errSelectLength   = 12102
+	errFieldNotExist  = 10102
+	errDuplicate      = 10104
+	errAmbiguous      = 12202
+	errKeyNotSet      = 13901
+	errTableLength    = 11401
+	errFileExists     = 90182
+	errNotLoaded      = 11602
+	errInlineTable    = 11604
+	errNotTable       = 13001
+	errAttrName       = 13002
+	errAttrNotAllowed = 13003
+	errAttrValue      = 13004
 )
 
 var failKinds = []struct {
@@ -328,6 +398,7 @@ var failKinds = []struct {
 	{"delete_unknown", 2},
 	{"delete_multi_bad_target", 9},
 	{"update_multi_bad_target", 5},
+	{"alter_set", 16},
 	{"insert_values", 8},
 	{"insert_values_unknown", 2},
 	{"insert_select_div0", 7},
@@ -529,6 +600,50 @@ func genFail(t *rapid.T, T, B *gTbl, enum bool) failT {
 	case "delete_unknown":
 		f.SK, f.FK, f.Errno = "delete", "unknown_field", errFieldNotExist
 		f.SQL = fmt.Sprintf("DELETE FROM %s WHERE nosuch = 1;", fromT)
+	case "alter_set":
+		// ALTER TABLE ... SET attribute TO value that is refused: the table's attributes (shared with the
+		// cached table through its FileInfo) must stay as they are
+		X := T
+		if !X.fileBacked() && B.fileBacked() && fw.Pct(t, "set_other", 80) {
+			X = B
+		}
+		f.SK, f.Target, f.Refs = "alter_set", X.Name, []string{X.Name}
+		set := func(attr, lit string) { f.SQL = fmt.Sprintf("ALTER TABLE %s SET %s TO %s;", X.Name, attr, lit) }
+		if !X.fileBacked() {
+			f.FK, f.Errno = "set_not_a_file", errNotTable
+			set(fw.PickU(t, "set_any_attr", []string{"FORMAT", "ENCODING", "HEADER"}), fw.PickU(t, "set_any_val", []string{"'JSON'", "'UTF16'", "FALSE"}))
+			break
+		}
+		switch fw.Weighted(t, "set_fail", []int{34, 30, 14, 8, 14}) {
+		case 0:
+			// refused combination: a JSON table takes UTF8 only (the format may come from the file, from a
+			// SET FORMAT of the prefix, or from one placed right before)
+			if X.format != "JSON" && X.format != "JSONL" {
+				to := fw.PickU(t, "set_json", []string{"JSON", "JSONL", "JSONH"})
+				f.Pre = append(f.Pre, stmtT{Kind: "set_format_json", SQL: fmt.Sprintf("ALTER TABLE %s SET FORMAT TO '%s';", X.Name, to), Refs: []string{X.Name}})
+				X.format = strings.TrimSuffix(to, "H")
+			}
+			f.FK, f.Errno, f.Part = "set_refused_combination", errAttrValue, true
+			set("ENCODING", "'"+fw.PickU(t, "set_bad_encoding", []string{"UTF16", "UTF16", "SJIS", "UTF8M", "UTF16LE", "UTF16BEM"})+"'")
+		case 1:
+			f.FK, f.Errno = "set_invalid_value", errAttrValue
+			av := fw.PickU(t, "set_invalid", [][2]string{{"FORMAT", "'NOSUCH'"}, {"FORMAT", "''"}, {"ENCODING", "'NOSUCH'"}, {"ENCODING", "'AUTO'"},
+				{"DELIMITER", "'ab'"}, {"DELIMITER", "''"}, {"DELIMITER_POSITIONS", "'abc'"}, {"DELIMITER_POSITIONS", "'[1, x]'"},
+				{"LINE_BREAK", "'XX'"}, {"JSON_ESCAPE", "'XX'"}})
+			set(av[0], av[1])
+		case 2:
+			f.FK, f.Errno = "set_value_not_allowed", errAttrNotAllowed
+			av := fw.PickU(t, "set_not_allowed", [][2]string{{"HEADER", "'abc'"}, {"HEADER", "NULL"}, {"ENCLOSE_ALL", "'maybe'"}, {"PRETTY_PRINT", "NULL"},
+				{"FORMAT", "NULL"}, {"ENCODING", "NULL"}, {"LINE_BREAK", "NULL"}, {"DELIMITER", "NULL"}})
+			set(av[0], av[1])
+		case 3:
+			f.FK, f.Errno = "set_unknown_attribute", errAttrName
+			set("NOSUCH", fw.PickU(t, "set_any_val", []string{"'JSON'", "1", "TRUE"}))
+		default:
+			f.FK, f.Errno = "set_value_fails", errDiv0
+			av := fw.PickU(t, "set_eval", [][2]string{{"HEADER", "1 / 0"}, {"FORMAT", "'JS' || (1 / 0)"}, {"ENCODING", "(SELECT 1 / (id - id) FROM " + T.Name + " LIMIT 1)"}, {"PRETTY_PRINT", "1 / 0 = 1"}})
+			set(av[0], av[1])
+		}
 	case "delete_multi_bad_target", "update_multi_bad_target":
 		// a table name after DELETE / UPDATE that is not an updatable table of the statement: the names are
 		// resolved one after the other, after the FROM clause was loaded (and given its aliases)
@@ -829,6 +944,42 @@ func genCaseOf(t *rapid.T, enum bool) caseT {
 		c.F.Ns = nil
 	}
 	c.Ending = []string{"commit", "follow_commit", "rollback"}[fw.Weighted(t, "ending", []int{28, 57, 15})]
+	// a valid SET right before COMMIT: what COMMIT then writes depends on every attribute of the table
+	var fileBacked []*gTbl
+	for _, g := range []*gTbl{T, B} {
+		if g.fileBacked() {
+			fileBacked = append(fileBacked, g)
+		}
+	}
+	if len(fileBacked) > 0 && c.Ending != "rollback" {
+		pct := 20
+		if c.F.SK == "alter_set" {
+			pct = 85
+		}
+		if fw.Pct(t, "follow_set", pct) {
+			g := fileBacked[fw.Range(t, "follow_set_table", 0, len(fileBacked)-1)]
+			if c.F.SK == "alter_set" && c.F.FK != "set_not_a_file" && fw.Pct(t, "follow_set_same", 85) {
+				for _, x := range fileBacked {
+					if x.Name == c.F.Target {
+						g = x
+					}
+				}
+			}
+			var sql string
+			if fw.Pct(t, "follow_set_format", 70) {
+				var others []string
+				for _, x := range []string{"CSV", "TSV", "JSON", "JSONL", "LTSV", "GFM"} {
+					if x != g.format {
+						others = append(others, x)
+					}
+				}
+				sql = fmt.Sprintf("ALTER TABLE %s SET FORMAT TO '%s';", g.Name, fw.PickU(t, "follow_format", others))
+			} else {
+				sql = genValidSet(t, g)
+			}
+			c.FollowSet = &stmtT{Kind: "follow_set", SQL: sql, Refs: []string{g.Name}}
+		}
+	}
 	return c
 }
 
@@ -967,6 +1118,63 @@ func diffSnap(a, b snapT) string {
 		return fmt.Sprintf("%d of %d rows differ; %s", changed, len(a.Rows), first)
 	}
 	return ""
+}
+
+// fileName is the file behind a file-backed table.
+func fileName(t tblT) string {
+	if t.Kind == "file" && t.Fmt != "" {
+		return t.Name + "." + t.Fmt
+	}
+	return t.Name + ".csv"
+}
+
+// contentOf renders the initial file of a file table in its format; every value is text.
+func contentOf(t tblT) string {
+	var b strings.Builder
+	switch t.Fmt {
+	case "":
+		return csvOf(t)
+	case "tsv":
+		b.WriteString("id\tv\tw\n")
+	case "json":
+		b.WriteString("[")
+	}
+	for i := 0; i < t.N; i++ {
+		id := idAt(t, i)
+		switch t.Fmt {
+		case "tsv":
+			fmt.Fprintf(&b, "%d\ta%d\t%d\n", id, id, id*10)
+		case "ltsv":
+			fmt.Fprintf(&b, "id:%d\tv:a%d\tw:%d\n", id, id, id*10)
+		case "jsonl":
+			fmt.Fprintf(&b, "{\"id\":\"%d\",\"v\":\"a%d\",\"w\":\"%d\"}\n", id, id, id*10)
+		case "json":
+			if i > 0 {
+				b.WriteString(",")
+			}
+			fmt.Fprintf(&b, "{\"id\":\"%d\",\"v\":\"a%d\",\"w\":\"%d\"}", id, id, id*10)
+		}
+	}
+	if t.Fmt == "json" {
+		b.WriteString("]\n")
+	}
+	return b.String()
+}
+
+// attrsOf lists the attributes of every table the transaction has cached (what SHOW FIELDS reports
+// and what COMMIT writes by), read from the FileInfo of the cached views.
+func attrsOf(s *run.Sess) map[string]string {
+	out := map[string]string{}
+	for _, k := range s.Tx.CachedViews.Keys() {
+		v, ok := s.Tx.CachedViews.Load(k)
+		if !ok || v.FileInfo == nil {
+			continue
+		}
+		fi := v.FileInfo
+		out[filepath.Base(fi.Path)] = fmt.Sprintf("format=%v delimiter=%q positions=%v single_line=%v json_query=%q encoding=%v line_break=%q no_header=%v enclose_all=%v json_escape=%v pretty_print=%v",
+			fi.Format, fi.Delimiter, fi.DelimiterPositions, fi.SingleLine, fi.JsonQuery, fi.Encoding, fi.LineBreak, fi.NoHeader, fi.EncloseAll, fi.JsonEscape, fi.PrettyPrint)
+	}
+	return out
 }
 
 func csvOf(t tblT) string {
@@ -1187,7 +1395,7 @@ func checkOnce(c caseT, limit time.Duration) (fw.Outcome, *fw.Violation) {
 	files := map[string]string{}
 	for _, t := range c.Tables {
 		if t.Kind == "file" {
-			files[t.Name+".csv"] = csvOf(t)
+			files[fileName(t)] = contentOf(t)
 		}
 	}
 	if err := run.WriteFiles(dir, files); err != nil {
@@ -1221,6 +1429,23 @@ func checkOnce(c caseT, limit time.Duration) (fw.Outcome, *fw.Violation) {
 			setup = append(setup, fmt.Sprintf("CREATE TABLE `%s.csv` (id, v, w);", t.Name), fmt.Sprintf("INSERT INTO %s VALUES %s;", t.Name, valuesOf(t)))
 		}
 	}
+	// chain: every state-changing statement of the case except the failing one; the same chain is executed
+	// once more in a fresh directory at the end (a failed statement is a no-op: both directories are equal)
+	var chain []string
+	attrsChanged := map[string]bool{}
+	noteSet := func(p stmtT) {
+		if strings.Contains(p.SQL, " SET ") && strings.HasPrefix(p.SQL, "ALTER TABLE") {
+			for _, n := range p.Refs {
+				attrsChanged[n] = true
+			}
+		}
+	}
+	for _, t := range c.Tables {
+		if t.Kind == "file" && t.Fmt != "" {
+			class("file_format:" + t.Fmt)
+		}
+	}
+	chain = append(chain, setup...)
 	for _, st := range setup {
 		if r := e.exec(st); r.Err != nil {
 			return o, fw.Harness("set-up statement failed: %v%s", r.Err, e.tail())
@@ -1237,6 +1462,8 @@ func checkOnce(c caseT, limit time.Duration) (fw.Outcome, *fw.Violation) {
 	// ---- prefix: successful data-changing statements
 	touched := map[string]bool{}
 	for _, p := range c.Prefix {
+		chain = append(chain, p.SQL)
+		noteSet(p)
 		r := e.exec(p.SQL)
 		if r.Err != nil {
 			return o, fw.Harness("prefix statement failed: %v%s", r.Err, e.tail())
@@ -1249,6 +1476,8 @@ func checkOnce(c caseT, limit time.Duration) (fw.Outcome, *fw.Violation) {
 
 	// variables and cursors that hold values read from the tables
 	for _, p := range c.F.Pre {
+		chain = append(chain, p.SQL)
+		noteSet(p)
 		if r := e.exec(p.SQL); r.Err != nil {
 			return o, fw.Harness("statement preparing a variable failed: %v%s", r.Err, e.tail())
 		}
@@ -1278,6 +1507,7 @@ func checkOnce(c caseT, limit time.Duration) (fw.Outcome, *fw.Violation) {
 		before[t.Name] = sn
 	}
 	filesBefore := plainFiles(dir)
+	attrsBefore := attrsOf(s)
 
 	f := c.F
 	kindOf := func(name string) string {
@@ -1301,6 +1531,9 @@ func checkOnce(c caseT, limit time.Duration) (fw.Outcome, *fw.Violation) {
 		state = "cold"
 	}
 	class("stmt:" + f.SK + "/" + f.FK)
+	if f.SK == "alter_set" {
+		fw.AddExtra("cases:alter_set/"+f.FK, 1)
+	}
 	class("table:" + tkind)
 	class("state:" + state)
 	class("ending:" + c.Ending)
@@ -1419,6 +1652,12 @@ func checkOnce(c caseT, limit time.Duration) (fw.Outcome, *fw.Violation) {
 		return nil
 	}
 	compareFiles := func(what string) *fw.Violation {
+		after := attrsOf(s)
+		for _, name := range fw.SortedKeys(attrsBefore) {
+			if a, ok := after[name]; ok && a != attrsBefore[name] {
+				return fw.V(sigBase+"_changed_table_attributes", "%s: attributes of %s were {%s}, are now {%s}%s", what, name, attrsBefore[name], a, e.tail())
+			}
+		}
 		if d := run.DiffSnap(filesBefore, plainFiles(dir)); d != "" {
 			sig := sigBase + "_changed_files"
 			if strings.HasPrefix(f.SK, "create") {
@@ -1606,6 +1845,7 @@ func checkOnce(c caseT, limit time.Duration) (fw.Outcome, *fw.Violation) {
 			ft = c.Tables[0].Name
 		}
 		st := fmt.Sprintf("INSERT INTO %s (id, v) VALUES (-7, 'post');", ft)
+		chain = append(chain, st)
 		r := e.exec(st)
 		if r.Err != nil {
 			return o, fw.V(sigBase+"_then_valid_statement_fails", "%s after the failed statement: %v%s", st, r.Err, e.tail())
@@ -1660,6 +1900,7 @@ func checkOnce(c caseT, limit time.Duration) (fw.Outcome, *fw.Violation) {
 				rows = append(rows, r)
 			}
 			st := fmt.Sprintf("UPDATE %s SET %sv = 'upd' WHERE %sid = %s;", t.Name, q1, q1, x)
+			chain = append(chain, st)
 			r := e.exec(st)
 			if r.Err != nil {
 				return o, fw.V(sigBase+"_then_valid_update_fails", "%s after the failed statement: %v%s", st, r.Err, e.tail())
@@ -1680,6 +1921,7 @@ func checkOnce(c caseT, limit time.Duration) (fw.Outcome, *fw.Violation) {
 				}
 				rows = kept
 				st = fmt.Sprintf("DELETE FROM %s WHERE %sid = %s;", t.Name, q2, y)
+				chain = append(chain, st)
 				r = e.exec(st)
 				if r.Err != nil {
 					return o, fw.V(sigBase+"_then_valid_delete_fails", "%s after the failed statement: %v%s", st, r.Err, e.tail())
@@ -1697,11 +1939,29 @@ func checkOnce(c caseT, limit time.Duration) (fw.Outcome, *fw.Violation) {
 			return o, v
 		}
 	}
+	if c.FollowSet != nil {
+		// a valid SET: what COMMIT writes now depends on every attribute the table has
+		chain = append(chain, c.FollowSet.SQL)
+		noteSet(*c.FollowSet)
+		if r := e.exec(c.FollowSet.SQL); r.Err != nil {
+			return o, fw.V(sigBase+"_then_valid_set_fails", "%s after the failed statement: %v%s", c.FollowSet.SQL, r.Err, e.tail())
+		}
+		class("follow_set")
+	}
+	chain = append(chain, "COMMIT;")
 	if r := e.exec("COMMIT;"); r.Err != nil {
 		return o, fw.V(sigBase+"_then_commit_fails", "COMMIT after the failed statement: %v%s", r.Err, e.tail())
 	}
+	// a table whose attributes a SET statement changed no longer reads back by its file name; those
+	// are covered by the comparison with the run without the failed statement below
+	wantPost := map[string]snapT{}
+	for _, t := range c.Tables {
+		if t.Kind == "temp" || !attrsChanged[t.Name] {
+			wantPost[t.Name] = want[t.Name]
+		}
+	}
 	// temporary tables in the same session, files through a fresh session
-	if v := compare("after the failed statement and COMMIT (same session)", want); v != nil {
+	if v := compare("after the failed statement and COMMIT (same session)", wantPost); v != nil {
 		v.Sig += "_after_commit"
 		return o, v
 	}
@@ -1710,7 +1970,7 @@ func checkOnce(c caseT, limit time.Duration) (fw.Outcome, *fw.Violation) {
 	var wantFiles []string
 	for _, t := range c.Tables {
 		if t.Kind != "temp" {
-			wantFiles = append(wantFiles, t.Name+".csv")
+			wantFiles = append(wantFiles, fileName(t))
 		}
 	}
 	sort.Strings(wantFiles)
@@ -1729,31 +1989,60 @@ func checkOnce(c caseT, limit time.Duration) (fw.Outcome, *fw.Violation) {
 	defer s2.Close()
 	e2 := &env{s: s2, limit: limit}
 	for _, t := range c.Tables {
-		if t.Kind == "temp" {
+		if t.Kind == "temp" || attrsChanged[t.Name] {
 			continue
 		}
+		fn := fileName(t)
 		got, err := e2.read(t.Name)
 		if err != nil {
-			return o, fw.V(sigBase+"_committed_file_unreadable", "a fresh session cannot read %s.csv after the failed statement and COMMIT: %v\n%s%s", t.Name, err, now[t.Name+".csv"], e.tail())
+			return o, fw.V(sigBase+"_committed_file_unreadable", "a fresh session cannot read %s after the failed statement and COMMIT: %v\n%s%s", fn, err, now[fn], e.tail())
 		}
 		if d := diffSnap(want[t.Name], got); d != "" {
 			role := "other"
 			if t.Name == f.Target {
 				role = "target"
 			}
-			return o, fw.V(fmt.Sprintf("%s_committed_%s_%s_table", sigBase, role, t.Kind), "%s.csv as written by COMMIT is not the table as it was before the failed statement: %s%s", t.Name, d, e.tail())
+			return o, fw.V(fmt.Sprintf("%s_committed_%s_%s_table", sigBase, role, t.Kind), "%s as written by COMMIT is not the table as it was before the failed statement: %s%s", fn, d, e.tail())
 		}
-		// the bytes: header line and one line per record; every cell here is NULL (empty) or a word
-		// that needs no quoting, so the CSV text is determined
-		if wantBytes, ok := csvBytes(want[t.Name]); ok {
-			if got := now[t.Name+".csv"]; got != wantBytes {
-				return o, fw.V(fmt.Sprintf("%s_committed_bytes_%s_table", sigBase, t.Kind), "%s.csv after the failed statement and COMMIT holds %q, expected %q%s", t.Name, clipS(got), clipS(wantBytes), e.tail())
+		if strings.HasSuffix(fn, ".csv") {
+			// the bytes: header line and one line per record; every cell here is NULL (empty) or a word
+			// that needs no quoting, so the CSV text is determined
+			if wantBytes, ok := csvBytes(want[t.Name]); ok {
+				if got := now[fn]; got != wantBytes {
+					return o, fw.V(fmt.Sprintf("%s_committed_bytes_%s_table", sigBase, t.Kind), "%s after the failed statement and COMMIT holds %q, expected %q%s", fn, clipS(got), clipS(wantBytes), e.tail())
+				}
+				class("committed_bytes_checked")
+			} else {
+				fw.AddExtra("bytes_not_checked:cell_needs_quoting", 1)
 			}
-			class("committed_bytes_checked")
-		} else {
-			fw.AddExtra("bytes_not_checked:cell_needs_quoting", 1)
 		}
 	}
+
+	// ---- the same chain without the failed statement, in a fresh directory: the committed files are the same
+	dir2 := dir + "-twin"
+	if err := os.MkdirAll(dir2, 0755); err != nil {
+		return o, fw.Harness("%v", err)
+	}
+	defer os.RemoveAll(dir2)
+	if err := run.WriteFiles(dir2, files); err != nil {
+		return o, fw.Harness("%v", err)
+	}
+	s3, err := run.NewSess(run.Opt{Dir: dir2, CPU: c.CPU})
+	if err != nil {
+		return o, fw.Harness("%v", err)
+	}
+	defer s3.Close()
+	e3 := &env{s: s3, limit: limit}
+	for _, st := range chain {
+		if r := e3.exec(st); r.Err != nil {
+			return o, fw.V(sigBase+"_chain_fails_without_it", "the statements of the case without the failed one, in a fresh directory: %s fails (%v) although it succeeded after the failed statement%s\n  without:%s", st, r.Err, e.tail(), e3.tail())
+		}
+	}
+	s3.Close()
+	if d := run.DiffSnap(plainFiles(dir2), now); d != "" {
+		return o, fw.V(sigBase+"_commit_differs_from_run_without_it", "committed files without -> with the failed statement: %s%s", d, e.tail())
+	}
+	class("differential_no_op_checked")
 	return o, nil
 }
 
@@ -1791,7 +2080,7 @@ func clipS(s string) string {
 
 func TestC08EnumerateFailurePoints(t *testing.T) {
 	fw.Run(t, fw.Spec[caseT]{
-		ID: "C08", Name: "enumerate_failure_points", Quick: 1500, Thorough: 30000,
+		ID: "C08", Name: "enumerate_failure_points", Quick: 1200, Thorough: 24000,
 		Gen: genEnumCase, Check: checkCase,
 		Rule: "same tables, prefix and endings as failed_statement, but the row-bound statement shapes only, and the statement is executed once per failure point on the same session (a failed statement changes nothing, so the next point starts from the same state): K = the id of every row the statement evaluates (tables up to 24 rows; larger tables: rows 0-2, 15-17 around the 16-row polling boundary, both sides of every worker boundary, the quartiles, the last three), or cancellation after N = 0, 1, 2, ... polls until the statement completes. After every execution both tables and the plain files are compared with the state before the first one; the ending (COMMIT / further INSERT + COMMIT / ROLLBACK and re-read by a fresh session) follows the last K. Evaluations = executions of the failing statement; non-trivial and distinct as in failed_statement, one fingerprint per failure point",
 		Assumptions: []string{
@@ -1811,11 +2100,12 @@ func errNumber(err error) int {
 
 func TestC08FailedStatement(t *testing.T) {
 	fw.Run(t, fw.Spec[caseT]{
-		ID: "C08", Name: "failed_statement", Quick: 5000, Thorough: 100000,
+		ID: "C08", Name: "failed_statement", Quick: 4000, Thorough: 80000,
 		Gen: genCase, Check: checkCase,
-		Rule: "two tables t1/t2 (CSV file, temporary table or table created in the same transaction; 1-340 rows, ~25% of the cases with >=160 rows and cpu 2/4 so that worker goroutines evaluate), a prefix of 0-4 successful INSERT/UPDATE/DELETE/REPLACE/ALTER statements, then ONE statement engineered to fail: UPDATE/DELETE/INSERT..SELECT/REPLACE..SELECT/ALTER ADD DEFAULT/CREATE TABLE AS dividing by (id-K) with K the first/middle/last id, multi-table UPDATE that becomes ambiguous at row K, VALUES lists whose j-th row has the wrong length or fails, unknown fields, missing/duplicate columns, REPLACE key not set, CREATE TABLE over an existing file, a multi-table DELETE/UPDATE whose list of target names holds a name that is not an updatable table of the statement (unknown name, subquery alias, WITH table; before or after valid names), or a valid statement (single-target UPDATE/DELETE/INSERT/REPLACE/ALTER/CREATE TABLE AS, two-target UPDATE a, b and DELETE a, b over a join) whose context is cancelled after N polls (several N per case). In 60% of the cases the statement names its tables through aliases (t1 a, t2 b, source x) that differ from the table names. Executed statement by statement on one in-process session; oracle: after data-neutral filler SELECTs, SELECT * AND the table-qualified SELECT t.c1, t.c2, ... of both tables and the plain files of the directory are the same before and after; then COMMIT - in 57% of the cases after a further INSERT and, on BOTH tables, an UPDATE and a DELETE of one row (plain and table-qualified names) whose affected counts and effects must match a row model - and a fresh session reads the modelled content from the files, whose bytes must be the modelled CSV text; or ROLLBACK returns to the initial content. Non-trivial = the failure strikes after >=1 row / row value / statement item was evaluated (K not first, j>0, N>1); distinct by (statement kind, failure kind, position class, table kind, size class, clean/dirty/cold)",
+		Rule: "two tables t1/t2 (file in CSV, TSV, JSON, JSONL or LTSV format, temporary table or table created in the same transaction; 1-340 rows, ~25% of the cases with >=160 rows and cpu 2/4 so that worker goroutines evaluate), a prefix of 0-4 successful INSERT/UPDATE/DELETE/REPLACE/ALTER ADD/DROP/SET <attribute> statements, then ONE statement engineered to fail: UPDATE/DELETE/INSERT..SELECT/REPLACE..SELECT/ALTER ADD DEFAULT/CREATE TABLE AS dividing by (id-K) with K the first/middle/last id, multi-table UPDATE that becomes ambiguous at row K, VALUES lists whose j-th row has the wrong length or fails, unknown fields, missing/duplicate columns, REPLACE key not set, CREATE TABLE over an existing file, a multi-table DELETE/UPDATE whose list of target names holds a name that is not an updatable table of the statement (unknown name, subquery alias, WITH table; before or after valid names), a refused ALTER TABLE ... SET (non-UTF8 ENCODING of a JSON/JSONL table, invalid FORMAT/ENCODING/DELIMITER/DELIMITER_POSITIONS/LINE_BREAK/JSON_ESCAPE value, NULL or non-boolean for HEADER/ENCLOSE_ALL/PRETTY_PRINT, unknown attribute, value expression that fails, temporary table), or a valid statement (single-target UPDATE/DELETE/INSERT/REPLACE/ALTER/CREATE TABLE AS, two-target UPDATE a, b and DELETE a, b over a join) whose context is cancelled after N polls (several N per case). In 60% of the cases the statement names its tables through aliases (t1 a, t2 b, source x) that differ from the table names. Executed statement by statement on one in-process session; oracle: after data-neutral filler SELECTs, SELECT * AND the table-qualified SELECT t.c1, t.c2, ... of both tables and the plain files of the directory are the same before and after; then COMMIT - in 57% of the cases after a further INSERT and, on BOTH tables, an UPDATE and a DELETE of one row (plain and table-qualified names) whose affected counts and effects must match a row model - and a fresh session reads the modelled content from the files, whose bytes must be the modelled CSV text; or ROLLBACK returns to the initial content. After every failed execution the attributes (format, delimiter, positions, encoding, line break, header, enclose-all, JSON escape, pretty print) of every cached table are those from before. Differential no-op oracle for every failure kind: all state-changing statements of the case except the failed one (set-up, prefix, follow-ups, optionally a valid ALTER TABLE ... SET right before COMMIT, COMMIT) are executed again in a fresh directory and both directories must hold the same bytes. Non-trivial = the failure strikes after >=1 row / row value / statement item was evaluated (K not first, j>0, N>1); distinct by (statement kind, failure kind, position class, table kind, size class, clean/dirty/cold)",
 		Assumptions: []string{
 			"tables are compared by column names, row order, cell text and NULL-ness (not by value type: a CSV round trip turns every value into text)",
+			"tables whose attributes a SET statement changed are not re-read by name after COMMIT (the file no longer has the format of its extension); they are covered by the differential comparison",
 			"follow-up statements address single rows by id (ids are unique integers); the committed bytes are compared only when every cell is NULL or a word that needs no quoting (measured otherwise as bytes_not_checked:*)",
 			"lock and temp files of tables the failed statement loaded for update may appear: they belong to the open transaction, not to the statement's effects; litter after the transaction is C11's subject",
 			"the error must be returned, its class is not constrained: a statement that fails differently from the engineered failure is still checked but does not count as non-trivial (measured as other_error:*)",
